@@ -99,6 +99,29 @@ pub proof fn lemma_shl_bit(k: usize)
     assert(1u8 << 0usize == 1 && 1u8 << 1usize == 2 && 1u8 << 2usize == 4 && 1u8 << 3usize == 8 && 1u8 << 4usize == 16 && 1u8 << 5usize == 32 && 1u8 << 6usize == 64 && 1u8 << 7usize == 128) by (bit_vector);
 }
 
+
+// ---------- bitmap.rs: BitmapMmapRegion = a replaceable inner bitmap shared by all slices of a region + the slice's base offset
+// what AtomicBitmapMmap::mark_dirty(offset, len) does to the log (its verified postcondition, named)
+pub open spec fn md_post(b0: AtomicBitmapMmap, b1: AtomicBitmapMmap, offset: usize, len: usize) -> bool {
+    b1.pages_before_region == b0.pages_before_region && b1.number_of_pages == b0.number_of_pages && b1.logmem.len == b0.logmem.len
+    && (len == 0 ==> b1.logmem.writes@ == b0.logmem.writes@)
+    && (len > 0 ==> b1.logmem.writes@ == b0.logmem.writes@ + expected_writes(b0, first_page(offset),
+            if last_page(offset, len) + 1 < b0.number_of_pages { last_page(offset, len) + 1 } else if first_page(offset) < b0.number_of_pages { b0.number_of_pages as int } else { first_page(offset) }))
+}
+// `inner: Arc<RwLock<Option<AtomicBitmapMmap>>>` (R8; assumed: A-LOCK). `id`: identity of the shared cell (slices share it)
+pub struct InnerCell { pub id: Ghost<int>, pub b: Option<AtomicBitmapMmap> }
+impl InnerCell {
+    // R8 target of `self.inner.read().unwrap()` / `self.inner.write().unwrap()`
+    pub fn guard(&mut self) -> (g: &mut Option<AtomicBitmapMmap>) ensures *g == old(self).b, final(self).b == *final(g), final(self).id == old(self).id { &mut self.b }
+    // R23 target of `Arc::clone(&self.inner)` (assumed: A-CLONE the clone refers to the same cell)
+    #[verifier::external_body]
+    pub fn share(&self) -> (r: InnerCell) ensures r.id == self.id, r.b == self.b { unimplemented!() }
+}
+pub struct BitmapMmapRegion { pub inner: InnerCell, pub base_address: usize }
+pub open spec fn region_bitmap_wf(r: BitmapMmapRegion) -> bool {
+    r.inner.b is Some ==> bitmap_wf(r.inner.b->Some_0) && r.inner.b->Some_0.pages_before_region + r.inner.b->Some_0.number_of_pages <= usize::MAX
+}
+
 // ---------- handler.rs: memory-table updates (ADD_MEM_REG / REM_MEM_REG). vm-memory is modelled by its documented effect on a
 // ghost view of the region table (assumed: A-VMM); the backend is told through update_memory.
 // `logged`: the region's bitmap has an inner log installed (dirty pages are recorded)
